@@ -714,6 +714,7 @@ def main():
         "desc": "family contracts F1/F2/F3 over the LP modifiers of SoPlexBase<R> (soplex.hpp): public real, public rational, internal _xxxReal twins, helpers. "
                 "Instances whose defect was fixed in the repository (A-F: rat_clearLPRational, *_anyinfty, *_scaleflag, int_remove{Rows,Cols}Real_perm, int_changeElementReal, int_addColReal4) "
                 "carry a seeded fault defect_<X>_* that re-introduces it; the four int_change*Real_i_fixedclause instances FAIL on the current tree (OPEN known finding G, C06 only)",
+        "scope_bounded": "H::body",   # bounded by the cap only where a loop of the body under contract is unwound
         "rmode": "R = double (IEEE, bit-precise); Rational = ordered-group long long with Rational(double) = exact order embedding, R(Rational) uninterpreted",
         "harness": "h_lpmod", "enforce": "w_lpmod",
         "defines": {"CAP": "6"},
